@@ -16,7 +16,7 @@ LEVEL = "exploration"
 TECHNIQUE = "differential monitor across interpreter processes: SHA-256 of env.compile(src, raw=True) under several PYTHONHASHSEED values and repeated in-process"
 RULE = ("generated templates (corpus programs + name-rich templates with tuple assignment, branch "
         "stores, many filters/tests, from-imports with context, includes inside scopes with many "
-        "locals, macros using varargs/kwargs/caller; half of them with identifiers that differ only in "
+        "locals, macros using varargs/kwargs/caller, built-in filters applied to constants; half of them with identifiers that differ only in "
         "case) compiled in child processes with PYTHONHASHSEED "
         "in {0,1,2,3,random} (+4 more in thorough) and twice in-process, in sync/async/sandboxed "
         "environments; all digests per template must be equal. distinct = distinct template sources "
@@ -74,6 +74,17 @@ def det_template(rng):
     br = rng.sample(NAMES, 5)
     parts.append("{%% if %s %%}{%% set %s = 1 %%}{%% set %s = 1 %%}{%% set %s = 1 %%}{%% set %s = 1 %%}{%% endif %%}"
                  "{{ %s }}{{ %s }}{{ %s }}{{ %s }}" % (br[0], br[1], br[2], br[3], br[4], br[1], br[2], br[3], br[4]))
+    # filters applied to CONSTANTS: the optimizer writes their results into the generated source
+    consts = ['"see http://example.com/ and www.x.org"|urlize(nofollow=true)',
+              '"http://a.b/"|urlize(rel="external author", target="_blank")',
+              '"mailto:a@b.c http://d.e/"|urlize(40, true, extra_schemes=["mailto:"])',
+              '{"b": 1, "a": 2, "c": [3]}|xmlattr', '{"b": 1, "a": {"z": 1, "y": 2}}|tojson',
+              '["b", "A", "a", "B"]|unique|list', '{"b": 1, "A": 2}|dictsort', '[3, 1, 2]|sort|join(",")',
+              '"a b c a"|wordcount', '{"k": 1, "j": 2}|items|list', '[1, 2, 3, 4]|batch(3, "x")|list',
+              '{"x": {1, 2, 3}|list|length}', '"%s-%s"|format("a", "b")', '{1: "a", 2: "b"}|length',
+              '["x", "y"]|map("upper")|list', '[{"k": "b"}, {"k": "a"}]|groupby("k")|list|length']
+    for c in rng.sample(consts, 5):
+        parts.append("{{ %s }}" % c)
     rng.shuffle(parts)
     return "".join(parts)
 
